@@ -261,6 +261,44 @@ func kindLabel(te TE) string {
 	return te.K
 }
 
+// mixes tells whether comparing s with t confronts a tuple type with a pair type at corresponding
+// positions (only used for labels).
+func mixes(s, t TE) bool {
+	switch {
+	case (s.K == kTuple && t.K == kPair) || (s.K == kPair && t.K == kTuple):
+		return true
+	case s.K == kUnion:
+		for _, a := range s.A {
+			if mixes(a, t) {
+				return true
+			}
+		}
+		return false
+	case t.K == kUnion:
+		for _, b := range t.A {
+			if mixes(s, b) {
+				return true
+			}
+		}
+		return false
+	case s.K != t.K:
+		return false
+	}
+	for i := 0; i < len(s.A) && i < len(t.A); i++ {
+		if mixes(s.A[i], t.A[i]) {
+			return true
+		}
+	}
+	for _, fs := range s.F {
+		for _, ft := range t.F {
+			if fs.L == ft.L && mixes(fs.T, ft.T) {
+				return true
+			}
+		}
+	}
+	return false
+}
+
 // check judges the case; it is a pure function of c and the code under test.
 func check(run *stats.Run, f stats.Failer, c Case) verdict {
 	var v verdict
@@ -326,6 +364,9 @@ func check(run *stats.Run, f stats.Failer, c Case) verdict {
 			if i == j {
 				continue
 			}
+			if mixes(tes[i], tes[j]) {
+				labels["mix:tuple-vs-pair"] = true
+			}
 			ok, pm := conforms(terms[i], terms[j])
 			if pm != "" {
 				run.Failf(f, "no judgement for a pair of well-formed closed type expressions: %s on S = %s, T = %s", pm, c.Types[i], c.Types[j])
@@ -335,6 +376,9 @@ func check(run *stats.Run, f stats.Failer, c Case) verdict {
 				continue
 			}
 			labels["affirmed"] = true
+			if mixes(tes[i], tes[j]) {
+				labels["mix:tuple-vs-pair-affirmed"] = true
+			}
 			best := -1 // the shortest witness, for the message
 			for k := range U {
 				if mem[i][k] && !mem[j][k] && (best < 0 || len(uvals[k].Source()) < len(uvals[best].Source())) {
@@ -486,6 +530,9 @@ func TestC12(t *testing.T) {
 		}
 		if info.copies > 0 {
 			v.labels = append(v.labels, "gen:copy")
+		}
+		if info.tuplePair {
+			v.labels = append(v.labels, "gen:tuple-vs-pair")
 		}
 		run.Case(v.nontrivial, c.hash(), v.labels...)
 		if v.nontrivial {
